@@ -1398,6 +1398,16 @@ func (in *Interp) builtin(fr *frame, b *ssa.Builtin, c *ssa.CallCommon, args []V
 				a.Slots = nil
 			}
 			return nil
+		case Slice:
+			if a.Seq != nil {
+				panic(abort("clear of opaque byte sequence"))
+			}
+			et := c.Args[0].Type().Underlying().(*types.Slice).Elem()
+			for i := range a.A {
+				in.onStore(&a.A[i])
+				a.A[i] = in.zero(et)
+			}
+			return nil
 		}
 	case "panic":
 		panic(goPanic{val: args[0], msg: in.panicString(args[0])})
